@@ -182,13 +182,12 @@ func (f *Facts) Proposer(e *Entry, slot common.Slot) {
 		x.proposers[uint64(slot)] = fmt.Sprintf("(%d,%d)", uint64(slot), uint64(p))
 	}
 }
+// Sync: the sync committee of the entry = current_sync_committee of the entry's STATE (the state of the block carried
+// to the entry's slot), as the p2p conditions are worded; never the EpochsContext cache the validators read.
 func (f *Facts) Sync(e *Entry) []common.ValidatorIndex {
 	x := f.ent(e)
 	x.needSync = true
-	if e.epc.CurrentSyncCommittee == nil {
-		return nil
-	}
-	return e.epc.CurrentSyncCommittee.Indices
+	return f.v.W.SyncCommitteeOf(e.st)
 }
 func (f *Facts) Pubkey(e *Entry, i common.ValidatorIndex) {
 	x := f.ent(e)
@@ -259,8 +258,10 @@ func (x *entryFacts) coq(v *View) string {
 	nv, err := vals.ValidatorCount()
 	must(err)
 	sync := "None"
-	if x.needSync && e.epc.CurrentSyncCommittee != nil {
-		sync = "(Some " + coqIdxList(e.epc.CurrentSyncCommittee.Indices) + ")"
+	if x.needSync {
+		if l := v.W.SyncCommitteeOf(e.st); l != nil {
+			sync = "(Some " + coqIdxList(l) + ")"
+		}
 	}
 	return fmt.Sprintf("(%d,Build_efacts %d %s %s %d %s %s %s %s %s %d %s %s %s)", x.id, uint64(e.slot), CoqBool(epcErr == nil), CoqBool(stErr == nil),
 		uint64(e.epc.CurrentEpoch.Epoch), CoqList(sortedVals(x.counts)), CoqList(sortedVals(x.comms)), CoqList(sortedVals(x.proposers)), sync,
